@@ -1,4 +1,10 @@
 import ConjureVerif.Lemmas.Call
+import ConjureVerif.Lemmas.Emit
+import ConjureVerif.Gen.CodegenClientsSrc
+import ConjureVerif.Gen.CodegenServersSrc
+import ConjureVerif.Gen.CodegenHttpPathsSrc
+import ConjureVerif.Gen.CodegenContextSrc
+import ConjureVerif.Gen.Keywords
 import ConjureVerif.Gen.ServerModSrc
 import ConjureVerif.Gen.ServerConjureSrc
 import ConjureVerif.Lemmas.Endpoint
@@ -374,3 +380,213 @@ example : ((serverRequest Gen.Uri.component exTmpl exArgs .absent .ok []).map (f
   decide +kernel
 
 end ConjureVerif.C04
+
+/-! ### the generator: what is emitted for an endpoint, for every definition (Model/Emit.lean) -/
+namespace ConjureVerif.C04G
+open ConjureVerif ConjureVerif.Emit
+
+/-- the generator source this model transcribes: the client method (clients.rs), the server trait method (servers.rs),
+the path template parser (http_paths.rs) and the type predicates they consult (context.rs) -/
+theorem gen_emit_sources :
+    Gen.CodegenClientsSrc.hashes.lookup "fn generate_endpoint" = some 4899617061108162888 /- "{letdocs=ctx.docs(endpoint.docs());letdeprecated=matchendpoint.deprecated(){Some(docs)=>{letdocs=&**docs;quote!{#[deprecated(note=#docs)]}}None=>quote!(),};letasync_=matchstyle{Style::Async=>quote!(async),Style::Sync=>quote!(),};letname=ctx.field_name(endpoint.endpoint_name());letbody_arg=body_arg(endpoint);letparams=params(ctx,body_arg);letauth=quote!(auth_);letauth_arg=auth_arg(endpoint,&auth);l…" -/ ∧
+    Gen.CodegenClientsSrc.hashes.lookup "fn body_arg" = some 2187006078158176704 /- "{endpoint.args().iter().find(|a|matches!(a.param_type(),ParameterType::Body(_)))}" -/ ∧
+    Gen.CodegenClientsSrc.hashes.lookup "fn return_type" = some 16980912466079708875 /- "{matchendpoint.returns(){Some(ret)=>matchctx.is_optional(ret){Some(inner)ifctx.is_binary(inner)=>ReturnType::OptionalBinary,_ifctx.is_binary(ret)=>ReturnType::Binary,_=>ReturnType::Json(ret),},None=>ReturnType::None,}}" -/ ∧
+    Gen.CodegenClientsSrc.hashes.lookup "fn return_type_name" = some 17450906323156107254 /- "{matchty{ReturnType::None=>quote!(()),ReturnType::Json(ty)=>ctx.rust_type(def.service_name(),ty),ReturnType::Binary=>quote!(T::ResponseBody),ReturnType::OptionalBinary=>{letoption=ctx.option_ident(def.service_name());quote!(#option<T::ResponseBody>)}}}" -/ ∧
+    Gen.CodegenClientsSrc.hashes.lookup "fn setup_request" = some 14685793083886568292 /- "{matchbody_arg{Some(body_arg)=>{letname=ctx.field_name(body_arg.arg_name());ifctx.is_binary(body_arg.type_()){matchstyle{Style::Sync=>quote!{letmut#request=conjure_http::private::encode_binary_request(#name);},Style::Async=>quote!{letmut#request=conjure_http::private::async_encode_binary_request(#name);},}}else{letfunction=matchstyle{Style::Sync=>quote!(encode_serializable_request),Style::Async=>q…" -/ ∧
+    Gen.CodegenClientsSrc.hashes.lookup "fn setup_path" = some 14031793499817745477 /- "{letpath=quote!(path_);letpath_components=setup_path_components(ctx,endpoint,&path);letquery_components=setup_query_components(ctx,endpoint,&path);quote!{letmut#path=conjure_http::private::UriBuilder::new();#path_components#query_components*#request.uri_mut()=#path.build();}}" -/ ∧
+    Gen.CodegenClientsSrc.hashes.lookup "fn setup_path_components" = some 10980038237543343386 /- "{letpath_params=endpoint.args().iter().filter(|arg|matches!(arg.param_type(),&ParameterType::Path(_))).map(|arg|{letkey=&***arg.arg_name();letvalue=ctx.field_name(key);(key,value)}).collect::<HashMap<_,_>>();letmutcalls=vec![];letmutcur=String::new();forsegmentinhttp_paths::parse(endpoint.http_path()){matchsegment{PathSegment::Literal(lit)=>{cur.push('/');cur.push_str(lit);}PathSegment::Parameter{…" -/ ∧
+    Gen.CodegenClientsSrc.hashes.lookup "fn setup_query_components" = some 8887678359109258859 /- "{letmutcalls=vec![];forargumentinendpoint.args(){letquery=matchargument.param_type(){ParameterType::Query(query)=>query,_=>continue,};letkey=&**query.param_id();letname=ctx.field_name(argument.arg_name());letcall=ifctx.is_optional(argument.type_()).is_some(){quote!{#path.push_optional_query_parameter(#key,&#name);}}elseifctx.is_list(argument.type_()){quote!{#path.push_list_query_parameter(#key,&#n…" -/ ∧
+    Gen.CodegenClientsSrc.hashes.lookup "fn setup_headers" = some 7531194371341481828 /- "{letmutcalls=vec![];ifletSome(call)=auth_header(endpoint,request,auth){calls.push(call);}forargumentinendpoint.args(){letheader=matchargument.param_type(){ParameterType::Header(header)=>header,_=>continue,};letheader=header.param_id().to_lowercase();letname=ctx.field_name(argument.arg_name());letcall=ifctx.is_optional(argument.type_()).is_some(){quote!{conjure_http::private::encode_optional_header…" -/ ∧
+    Gen.CodegenClientsSrc.hashes.lookup "fn auth_header" = some 4915863944739843995 /- "{matchendpoint.auth(){Some(AuthType::Cookie(cookie))=>{letprefix=format!(\"{}=\",cookie.cookie_name());Some(quote!{conjure_http::private::encode_cookie_auth(&mut#request,#prefix,#auth);})}Some(AuthType::Header(_))=>Some(quote!{conjure_http::private::encode_header_auth(&mut#request,#auth);}),None=>None,}}" -/ ∧
+    Gen.CodegenClientsSrc.hashes.lookup "fn setup_response_headers" = some 3759224840772371562 /- "{matchty{ReturnType::None=>quote!{conjure_http::private::encode_empty_response_headers(&mut#request);},ReturnType::Json(_)=>{quote!{conjure_http::private::encode_serializable_response_headers(&mut#request);}}ReturnType::Binary|&ReturnType::OptionalBinary=>quote!{conjure_http::private::encode_binary_response_headers(&mut#request);},}}" -/ ∧
+    Gen.CodegenClientsSrc.hashes.lookup "fn setup_endpoint_extension" = some 1424937676276531747 /- "{letservice=service.service_name().name();letversion=matchctx.version(){Some(version)=>quote!{conjure_http::private::Option::Some(#version)},None=>quote!{conjure_http::private::Option::None},};letname=&***endpoint.endpoint_name();letpath=&***endpoint.http_path();quote!{#request.extensions_mut().insert(conjure_http::client::Endpoint::new(#service,#version,#name,#path,));}}" -/ ∧
+    Gen.CodegenClientsSrc.hashes.lookup "fn setup_decode_response" = some 4320818972490165265 /- "{match(ty,style){(ReturnType::None,Style::Sync)=>quote!{conjure_http::private::decode_empty_response(#response)},(ReturnType::None,Style::Async)=>quote!{conjure_http::private::async_decode_empty_response(#response).await},(ReturnType::Json(ty),Style::Sync)=>{ifctx.is_iterable(ty){quote!{conjure_http::private::decode_default_serializable_response(#response)}}else{quote!{conjure_http::private::decod…" -/ ∧
+    Gen.CodegenServersSrc.hashes.lookup "fn generate_trait_endpoint" = some 16102266904124567240 /- "{letdocs=ctx.docs(endpoint.docs());letmethod=endpoint.http_method().as_str().parse::<TokenStream>().unwrap();letpath=&**endpoint.http_path();letendpoint_name=&**endpoint.endpoint_name();letasync_=matchstyle{Style::Async=>quote!(async),Style::Sync=>quote!(),};letname=ctx.field_name(endpoint.endpoint_name());letproduces=matchendpoint.returns(){Some(ty)=>{letproduces=produces(ctx,ty);quote!(,produces…" -/ ∧
+    Gen.CodegenServersSrc.hashes.lookup "fn produces" = some 8558927906836934933 /- "{matchctx.is_optional(ty){Some(inner)ifctx.is_binary(inner)=>{quote!(conjure_http::server::conjure::OptionalBinaryResponseSerializer)}_ifctx.is_binary(ty)=>quote!(conjure_http::server::conjure::BinaryResponseSerializer),_ifctx.is_iterable(ty)=>{quote!(conjure_http::server::conjure::CollectionResponseSerializer)}_=>quote!(conjure_http::server::StdResponseSerializer),}}" -/ ∧
+    Gen.CodegenServersSrc.hashes.lookup "fn auth_arg" = some 2819720619934323493 /- "{matchendpoint.auth(){Some(auth)=>{letparams=matchauth{AuthType::Header(_)=>quote!(),AuthType::Cookie(cookie)=>{letname=&cookie.cookie_name();quote!((cookie_name=#name))}};quote!(,#[auth#params]auth_:conjure_object::BearerToken)}None=>quote!(),}}" -/ ∧
+    Gen.CodegenServersSrc.hashes.lookup "fn arg" = some 4541912162902917267 /- "{letname=ctx.field_name(arg.arg_name());letlog_as=ifname==**arg.arg_name(){quote!()}else{letlog_as=&**arg.arg_name();quote!(,log_as=#log_as)};letsafe=ifctx.is_safe_arg(arg){quote!(,safe)}else{quote!()};letattr=matcharg.param_type(){ParameterType::Body(_)=>{letdeserializer=ifctx.is_optional(arg.type_()).is_some(){letmutdecoder=quote!(conjure_http::server::conjure::OptionalRequestDeserializer);letde…" -/ ∧
+    Gen.CodegenServersSrc.hashes.lookup "fn optional_decoder" = some 8536855735895532482 /- "{letmutdecoder=quote!(conjure_http::server::conjure::FromPlainOptionDecoder);letdealiased=ctx.dealiased_type(ty);ifdealiased!=ty{letdealiased=ctx.rust_type(def.service_name(),dealiased);decoder=quote!(conjure_http::server::FromDecoder<#decoder,#dealiased>)}decoder}" -/ ∧
+    Gen.CodegenServersSrc.hashes.lookup "fn request_context_arg" = some 11043518883622856837 /- "{ifhas_request_context(endpoint){quote!(,#[context]request_context_:conjure_http::server::RequestContext<'_>)}else{quote!()}}" -/ ∧
+    Gen.CodegenServersSrc.hashes.lookup "fn return_type" = some 15598531446812545551 /- "{matchendpoint.returns(){Some(ty)=>matchctx.is_optional(ty){Some(inner)ifctx.is_binary(inner)=>ReturnType::OptionalBinary,_ifctx.is_binary(ty)=>ReturnType::Binary,_=>ReturnType::Json(ty),},None=>ReturnType::None,}}" -/ ∧
+    Gen.CodegenServersSrc.hashes.lookup "fn has_request_context" = some 400118104434433147 /- "{endpoint.tags().iter().any(|t|t==\"server-request-context\")}" -/ ∧
+    Gen.CodegenHttpPathsSrc.hashes.lookup "fn parse" = some 15596414897768765345 /- "{path.split('/').skip(1).map(|segment|matchsegment.strip_prefix('{').and_then(|s|s.strip_suffix('}')){Some(segment)=>{letmutit=segment.splitn(2,':');PathSegment::Parameter{name:it.next().unwrap(),_regex:it.next(),}}None=>PathSegment::Literal(segment),},)}" -/ ∧
+    Gen.CodegenContextSrc.hashes.lookup "Context::dealiased_type" = some 4920999125965768252 /- "{matchdef{Type::Primitive(_)|Type::Optional(_)|Type::List(_)|Type::Set(_)|Type::Map(_)=>def,Type::Reference(name)=>match&self.types[name].def{TypeDefinition::Enum(_)|TypeDefinition::Object(_)|TypeDefinition::Union(_)=>{def}TypeDefinition::Alias(def)=>self.dealiased_type(def.alias()),},Type::External(def)=>self.dealiased_type(def.fallback()),}}" -/ ∧
+    Gen.CodegenContextSrc.hashes.lookup "Context::is_binary" = some 13955510794151340484 /- "{matchdef{Type::Primitive(PrimitiveType::Binary)=>true,Type::Primitive(_)|Type::Optional(_)|Type::List(_)|Type::Set(_)|Type::Map(_)=>false,Type::Reference(def)=>self.is_binary_ref(def),Type::External(def)=>self.is_binary(def.fallback()),}}" -/ ∧
+    Gen.CodegenContextSrc.hashes.lookup "Context::is_binary_ref" = some 6344199050894492925 /- "{letctx=&self.types[name];match&ctx.def{TypeDefinition::Alias(def)=>self.is_binary(def.alias()),TypeDefinition::Enum(_)|TypeDefinition::Object(_)|TypeDefinition::Union(_)=>false,}}" -/ ∧
+    Gen.CodegenContextSrc.hashes.lookup "Context::is_iterable" = some 15275853327717276524 /- "{matchdef{Type::Primitive(_)=>false,Type::Optional(_)|Type::List(_)|Type::Set(_)|Type::Map(_)=>true,Type::Reference(def)=>self.is_iterable_ref(def),Type::External(def)=>self.is_iterable(def.fallback()),}}" -/ ∧
+    Gen.CodegenContextSrc.hashes.lookup "Context::is_iterable_ref" = some 3555025422218363586 /- "{letctx=&self.types[name];match&ctx.def{TypeDefinition::Alias(def)=>self.is_iterable(def.alias()),TypeDefinition::Enum(_)|TypeDefinition::Object(_)|TypeDefinition::Union(_)=>false,}}" -/ ∧
+    Gen.CodegenContextSrc.hashes.lookup "Context::is_optional" = some 15310284683605478148 /- "{matchdef{Type::Primitive(_)|Type::List(_)|Type::Set(_)|Type::Map(_)=>None,Type::Optional(def)=>Some(def.item_type()),Type::Reference(def)=>self.is_optional_ref(def),Type::External(def)=>self.is_optional(def.fallback()),}}" -/ ∧
+    Gen.CodegenContextSrc.hashes.lookup "Context::is_optional_ref" = some 16060014361428297009 /- "{letctx=&self.types[name];match&ctx.def{TypeDefinition::Alias(def)=>self.is_optional(def.alias()),TypeDefinition::Enum(_)|TypeDefinition::Object(_)|TypeDefinition::Union(_)=>None,}}" -/ ∧
+    Gen.CodegenContextSrc.hashes.lookup "Context::is_list" = some 7293379953684849428 /- "{matchdef{Type::List(_)=>true,Type::Primitive(_)|Type::Optional(_)|Type::Set(_)|Type::Map(_)=>false,Type::Reference(def)=>self.is_list_ref(def),Type::External(def)=>self.is_list(def.fallback()),}}" -/ ∧
+    Gen.CodegenContextSrc.hashes.lookup "Context::is_list_ref" = some 4472545208240749876 /- "{letctx=&self.types[name];match&ctx.def{TypeDefinition::Alias(def)=>self.is_list(def.alias()),TypeDefinition::Enum(_)|TypeDefinition::Object(_)|TypeDefinition::Union(_)=>false,}}" -/ ∧
+    Gen.CodegenContextSrc.hashes.lookup "Context::is_set" = some 18146976111862198898 /- "{matchdef{Type::Set(_)=>true,Type::Primitive(_)|Type::Optional(_)|Type::List(_)|Type::Map(_)=>false,Type::Reference(def)=>self.is_set_ref(def),Type::External(def)=>self.is_set(def.fallback()),}}" -/ ∧
+    Gen.CodegenContextSrc.hashes.lookup "Context::is_set_ref" = some 6624238053037641794 /- "{letctx=&self.types[name];match&ctx.def{TypeDefinition::Alias(def)=>self.is_set(def.alias()),TypeDefinition::Enum(_)|TypeDefinition::Object(_)|TypeDefinition::Union(_)=>false,}}" -/ ∧
+    Gen.CodegenContextSrc.hashes.lookup "Context::field_name" = some 241302775771227475 /- "{Ident::new(&self.ident_name(s),Span::call_site())}" -/ ∧
+    Gen.CodegenContextSrc.hashes.lookup "Context::ident_name" = some 9600903739137547653 /- "{letmuts=s.to_snake_case();letkeyword=match&*s{\"as\"|\"break\"|\"const\"|\"continue\"|\"crate\"|\"else\"|\"enum\"|\"extern\"|\"false\"|\"fn\"|\"for\"|\"if\"|\"impl\"|\"in\"|\"let\"|\"loop\"|\"match\"|\"mod\"|\"move\"|\"mut\"|\"pub\"|\"ref\"|\"return\"|\"self\"|\"static\"|\"struct\"|\"super\"|\"trait\"|\"true\"|\"type\"|\"unsafe\"|\"use\"|\"where\"|\"while\"|\"await\"=>true,\"abstract\"|\"async\"|…" -/ := by
+  decide +kernel
+
+/-- the six type predicates are views of one resolution through aliases and imported types, so they never disagree:
+optional / list / set / map / binary exclude each other, and iterable is their union without binary -/
+theorem C04_emit_predicates_consistent (defs : Defs) (f : Nat) (t : ITy) :
+    isOptional defs (f + 1) t = optView (dealiased defs f t) ∧ isList defs (f + 1) t = listView (dealiased defs f t) ∧
+    isSet defs (f + 1) t = setView (dealiased defs f t) ∧ isIterable defs (f + 1) t = iterView (dealiased defs f t) ∧
+    isBinary defs (f + 1) t = binView (dealiased defs f t) ∧
+    (isIterable defs (f + 1) t = ((isOptional defs (f + 1) t).isSome || isList defs (f + 1) t || isSet defs (f + 1) t ||
+      mapView (dealiased defs f t))) ∧
+    (isBinary defs (f + 1) t = true → isIterable defs (f + 1) t = false) := by
+  have hc := views_consistent (dealiased defs f t)
+  refine ⟨isOptional_view defs f t, isList_view defs f t, isSet_view defs f t, isIterable_view defs f t, isBinary_view defs f t, ?_, ?_⟩
+  · rw [isIterable_view, isOptional_view, isList_view, isSet_view]; exact hc.1
+  · rw [isBinary_view, isIterable_view]
+    cases dealiased defs f t <;> simp [binView, iterView]
+
+/-- the path the generated client builds is the template, segment by segment, with every parameter (`{name}` or
+`{name:regex}`) replaced by the percent-encoded text of the path argument of that name (`Call.uriReq`'s segments) -/
+theorem C04_emit_path (tbl : List Nat) (kw : List String) (args : List Arg) (txt : Option String → Emit.Bytes)
+    (path : Emit.Bytes) :
+    (pathCalls kw args (parsePath path) []).flatMap (callBuf tbl txt) =
+      (parsePath path).flatMap (segBuf tbl (fun n => txt ((args.find? (fun a => a.kind == .path && a.name == n)).map (ident kw)))) := by
+  simpa using pathCalls_buf tbl kw args txt (parsePath path) []
+
+/-- `{name:regex}` is the parameter `name`; consecutive literal segments are pushed joined -/
+example : parsePath [47, 102, 47, 123, 112, 58, 46, 43, 125] = [.lit [102], .param [112]] := by decide
+example : pathCalls [] [] [.lit [97], .lit [98], .param [112], .lit [99]] [] =
+    [.lit [47, 97, 47, 98], .pathParam none, .lit [47, 99]] := by decide
+
+/-! #### the two generated halves agree, for every definition -/
+
+def callProduces : Option Emit.Produces → Call.Produces
+  | none => .empty
+  | some .std => .std
+  | some .collection => .collection
+  | some .binary => .binary
+  | some .optionalBinary => .optBinary
+
+def decodeKind : Emit.Decode → Body.Kind
+  | .empty => .empty
+  | .serializable => .serializable
+  | .default_ => .defaultSerializable
+  | .binary => .binary
+  | .optionalBinary => .optionalBinary
+
+/-- **return types**: for every return type (through any chain of aliases and imported types) the `decode_*`
+function the generated client calls is the one that reads what the response serializer named in the generated
+server trait writes (`Call.clientKind`, used by `C04_return_roundtrip`), and the `Accept` header asks for it -/
+theorem C04_emit_return_agree (defs : Defs) (f : Nat) (r : Option ITy) :
+    decodeKind (decodeOf defs f (returnType defs f r)) = Call.clientKind (callProduces (r.map (produces defs f))) ∧
+    (acceptOf (returnType defs f r) = .serializable ↔
+      (r.map (produces defs f) = some .std ∨ r.map (produces defs f) = some .collection)) ∧
+    (acceptOf (returnType defs f r) = .binary ↔
+      (r.map (produces defs f) = some .binary ∨ r.map (produces defs f) = some .optionalBinary)) ∧
+    (acceptOf (returnType defs f r) = .empty ↔ r = none) := by
+  cases r with
+  | none => simp [returnType, decodeOf, decodeKind, callProduces, Call.clientKind, acceptOf]
+  | some t =>
+    simp only [returnType, produces, Option.map_some]
+    cases ho : isOptional defs f t with
+    | none =>
+      simp only
+      cases hb : isBinary defs f t <;> cases hi : isIterable defs f t <;>
+        simp [decodeOf, decodeKind, callProduces, Call.clientKind, acceptOf, hi]
+    | some inner =>
+      simp only
+      cases hbi : isBinary defs f inner <;> cases hb : isBinary defs f t <;> cases hi : isIterable defs f t <;>
+        simp [decodeOf, decodeKind, callProduces, Call.clientKind, acceptOf, hi]
+
+/-- **query arguments**: the generated client sends a query argument (whose type is not a map: Conjure allows
+primitives, optionals, lists and sets there) with the push of the cardinality that the decoder named in the server
+trait takes, under the same key, from the same Rust identifier -/
+theorem C04_emit_query_agree (defs : Defs) (f : Nat) (kw : List String) (a : Arg) (id : Emit.Bytes)
+    (hk : a.kind = .query id) (hm : mapView (dealiased defs f a.ty) = false) :
+    ∃ d l, serverArg defs (f + 1) kw a = .query id d (ident kw a) l ∧
+      d.card = (queryPush defs (f + 1) a.ty).card := by
+  unfold serverArg
+  rw [hk]
+  refine ⟨_, _, rfl, ?_⟩
+  rw [queryPush_card defs f a.ty hm]
+  cases ho : (isOptional defs (f + 1) a.ty).isSome
+  · cases hi : isIterable defs (f + 1) a.ty <;> simp [Dec.card, ho, hi]
+  · simp [Dec.card, optionalDec, ho]
+
+/-- **header arguments**: `encode_optional_header` exactly when the server decodes with the option decoder; the
+client's header name is the server's, lower-cased (header names are case-insensitive; `http` stores them so) -/
+theorem C04_emit_header_agree (defs : Defs) (f : Nat) (kw : List String) (a : Arg) (id : Emit.Bytes)
+    (hk : a.kind = .header id) :
+    ∃ d l, serverArg defs f kw a = .header id d (ident kw a) l ∧
+      (d.card = .opt ↔ (isOptional defs f a.ty).isSome = true) ∧ (d = .one ↔ (isOptional defs f a.ty).isSome = false) := by
+  unfold serverArg
+  rw [hk]
+  refine ⟨_, _, rfl, ?_⟩
+  cases ho : (isOptional defs f a.ty).isSome <;> simp [Dec.card, optionalDec, ho]
+
+/-- **bodies**: the client streams the body (`encode_binary_request`) exactly when the server reads it with the
+binary deserializer, and serializes it otherwise -/
+theorem C04_emit_body_agree (defs : Defs) (f : Nat) (kw : List String) (a : Arg) (hk : a.kind = .body) :
+    ∃ d l, serverArg defs (f + 1) kw a = .body d (ident kw a) l ∧
+      (d = .binary ↔ isBinary defs (f + 1) a.ty = true) := by
+  unfold serverArg
+  rw [hk]
+  refine ⟨_, _, rfl, ?_⟩
+  rw [isOptional_view, isBinary_view]
+  have hc := views_consistent (dealiased defs f a.ty)
+  cases ho : (optView (dealiased defs f a.ty)).isSome
+  · cases hb : binView (dealiased defs f a.ty) <;> simp [ho, hb]
+  · have := (hc.2.1 ho).2.2.2
+    simp [ho, this]
+
+/-- **auth**: header auth on one side is header auth on the other; a cookie's name on the server is the client's
+prefix without its `=`; no auth, no auth call and no auth attribute -/
+theorem C04_emit_auth_agree (defs : Defs) (f : Nat) (kw : List String) (e : Endpoint) :
+    (e.auth = .none → Call.headerAuth ∉ clientCalls defs f kw e ∧ (∀ p, Call.cookieAuth p ∉ clientCalls defs f kw e) ∧
+      (∀ c, SAttr.auth c ∉ serverAttrs defs f kw e)) ∧
+    (e.auth = .header → Call.headerAuth ∈ clientCalls defs f kw e ∧ SAttr.auth none ∈ serverAttrs defs f kw e) ∧
+    (∀ n, e.auth = .cookie n → Call.cookieAuth (n ++ [61]) ∈ clientCalls defs f kw e ∧ SAttr.auth (some n) ∈ serverAttrs defs f kw e) := by
+  have hreq : ∀ c, c = setupRequest defs f kw e.args → (∃ r i, c = .req r i) := by
+    intro c hc; unfold setupRequest at hc
+    split at hc
+    · split at hc <;> exact ⟨_, _, hc⟩
+    · exact ⟨_, _, hc⟩
+  have hq : ∀ c, c ∈ queryCalls defs f kw e.args → ∃ h k i, c = .query h k i := by
+    intro c hc; unfold queryCalls at hc
+    obtain ⟨a, -, ha⟩ := List.mem_filterMap.mp hc
+    cases hk : a.kind <;> simp [hk] at ha
+    exact ⟨_, _, _, ha.symm⟩
+  have hh : ∀ c, e.auth = .none → c ∈ headerCalls defs f kw e.auth e.args → ∃ o n i, c = .header o n i := by
+    intro c hn hc; unfold headerCalls at hc; rw [hn] at hc
+    simp only [List.nil_append] at hc
+    obtain ⟨a, -, ha⟩ := List.mem_filterMap.mp hc
+    cases hk : a.kind <;> simp [hk] at ha
+    exact ⟨_, _, _, ha.symm⟩
+  have hs : ∀ (a : Arg) c, serverArg defs f kw a ≠ SAttr.auth c := by
+    intro a c; unfold serverArg; cases a.kind <;> simp
+  refine ⟨?_, ?_, ?_⟩
+  · intro h
+    have key : ∀ c, c ∈ clientCalls defs f kw e → c ≠ .headerAuth ∧ ∀ p, c ≠ .cookieAuth p := by
+      intro c hc
+      simp only [clientCalls, List.mem_append, List.mem_cons, List.mem_singleton, List.not_mem_nil, or_false] at hc
+      rcases hc with (((hc | hc) | hc) | hc) | hc
+      · obtain ⟨r, i, rfl⟩ := hreq c hc; simp
+      · rcases pathCalls_mem kw e.args _ _ c hc with ⟨s, rfl⟩ | ⟨i, rfl⟩ <;> simp
+      · obtain ⟨a, b, d, rfl⟩ := hq c hc; simp
+      · obtain ⟨a, b, d, rfl⟩ := hh c h hc; simp
+      · rcases hc with rfl | rfl | rfl <;> simp
+    refine ⟨fun hm => (key _ hm).1 rfl, fun p hm => (key _ hm).2 p rfl, ?_⟩
+    intro c hm
+    simp only [serverAttrs, h, List.append_nil, List.mem_append, List.mem_cons, List.mem_singleton, List.not_mem_nil, or_false, List.mem_map] at hm
+    rcases hm with (hm | ⟨a, -, ha⟩) | hm
+    · cases hm
+    · exact hs a c ha
+    · split at hm <;> simp at hm
+  · intro h; simp [clientCalls, headerCalls, serverAttrs, h]
+  · intro n h; simp [clientCalls, headerCalls, serverAttrs, h]
+
+
+/-- non-vacuity: an alias of an alias of `optional<string>` as a query argument, an alias of `list<integer>` as the
+return type -/
+def exDefs : Defs := [.alias (.optional (.prim false)), .alias (.ref 0), .alias (.list (.prim false)), .other]
+example : queryPush exDefs 8 (.ref 1) = .optional ∧ produces exDefs 8 (.ref 2) = .collection ∧
+    decodeOf exDefs 8 (returnType exDefs 8 (some (.ref 2))) = .default_ ∧
+    optionalDec exDefs 8 (.ref 1) = .opt true ∧ optionalDec exDefs 8 (.optional (.prim false)) = .opt false := by
+  decide
+
+end ConjureVerif.C04G
